@@ -125,6 +125,28 @@ def dump(o):
     return {'__t': 'repr', 'v': repr(o)}
 
 
+def _arr(o):
+    import xarray as xr
+    if isinstance(o, xr.DataArray):
+        o = o.data
+    if isinstance(o, np.ndarray):
+        return o
+    return None
+
+
+def _shares(ret, arg):
+    import xarray as xr
+    rets = list(ret.data_vars.values()) if isinstance(ret, xr.Dataset) else (list(ret) if isinstance(ret, (tuple, list)) else [ret])
+    a = _arr(arg)
+    if a is None:
+        return False
+    for r in rets:
+        r = _arr(r)
+        if r is not None and np.shares_memory(r, a):
+            return True
+    return False
+
+
 def resolve(module, func):
     m = importlib.import_module(module)
     o = m
@@ -146,7 +168,7 @@ def handle(req):
             ret = f(*args, **kwargs)
             if req.get('compute') and hasattr(ret, 'compute'):
                 ret = ret.compute()
-            return {'ok': True, 'ret': dump(ret), 'args_after': [dump(a) for a in args]}
+            return {'ok': True, 'ret': dump(ret), 'args_after': [dump(a) for a in args], 'shares': [_shares(ret, a) for a in args]}
         except Exception as e:  # the exception is part of the observable behaviour
             return {'ok': False, 'exc': type(e).__name__, 'msg': str(e)[:500]}
     if op == 'script':
